@@ -146,10 +146,22 @@ func verifHarness_C02_async_three_bursts_T() {
 
 // UDP: datagrams of one remote go to one logical connection, different remotes
 // to different ones, boundaries preserved
-func verifHarness_C02_udp_demux() {
+func verifHarness_C02_udp_demux() { verifC02UDP(0, false); verifAssert(false, "witness") }
+
+// the same in every epoll mode, with in-poller and asynchronous reading: three
+// datagrams of different lengths are queued before the poller looks
+func verifHarness_C02_udp_modes() {
+	verifC02UDP(verifChoose("mode", 3), verifChoose("async", 2) == 1)
+	verifAssert(false, "witness")
+}
+
+func verifC02UDP(mode int, async bool) {
 	vkReset()
 	MaxOpenFiles = 32
-	g := NewEngine(Config{NPoller: 1, ReadBufferSize: 8})
+	conf := verifEngineConf(mode)
+	conf.ReadBufferSize = 8
+	conf.AsyncReadInPoller = async
+	g := NewEngine(conf)
 	type rec struct {
 		c    *Conn
 		data []byte
@@ -185,16 +197,19 @@ func verifHarness_C02_udp_demux() {
 	f.peerDatagram(d2, a2)
 	f.peerDatagram(d3, a1)
 	verifJoin()
-	verifAssertD(len(recs) == 3, "one-callback-per-datagram", "")
+	name := verifModeName(mode)
+	if async {
+		name += "/async"
+	}
+	verifAssertD(len(recs) == 3, "one-callback-per-datagram", name)
 	if len(recs) == 3 {
-		verifAssertD(len(recs[0].data) == 2 && len(recs[1].data) == 1 && len(recs[2].data) == 3, "datagram-boundaries-preserved", "")
+		verifAssertD(len(recs[0].data) == 2 && len(recs[1].data) == 1 && len(recs[2].data) == 3, "datagram-boundaries-preserved", name)
 		verifAssertD(verifEqBytes(recs[0].data, d1) && verifEqBytes(recs[1].data, d2) && verifEqBytes(recs[2].data, d3), "datagram-contents", "")
 		verifAssertD(recs[0].c == recs[2].c, "same-remote-same-connection", "")
 		verifAssertD(verifImplies(!same, recs[0].c != recs[1].c), "different-remotes-different-connections", "")
 		verifAssertD(verifImplies(same, recs[0].c == recs[1].c), "same-remote-same-connection", "symbolic")
 		verifAssertD(recs[0].c != srv, "peer-session-is-not-the-listener", "")
 	}
-	verifAssert(false, "witness")
 }
 
 
